@@ -1019,12 +1019,49 @@ def build(tier):
                         expect_classes=["Eigen block assertion"], note="head(nev) / leftCols(nev) against the exit state of compute()"))
 
     meta = {"level": "proof", "trusted_base": ["cbmc 6.11.0 dfcc", "cadical", "extractor"],
-            "assumptions": ["Eigen expression values are not modelled (column norms, small eigenproblem, products are nondeterministic)",
-                            "argsort satisfies the contract proved in C18; std::sort assumed"],
+            "assumptions": ["Eigen expression values are not modelled: column norms, the small eigenproblem and all products are nondeterministic; shapes, index expressions and per-column provenance tags are kept",
+                            "argsort satisfies the contract proved in C18; std::sort assumed",
+                            "Eigen::SelfAdjointEigenSolver (assumed, external): needs a square matrix, returns n eigenvalues and an n x n eigenvector matrix whose column j belongs to value j, info() in {Success, NumericalIssue, NoConvergence}; "
+                            "the small eigenproblem of the FIRST iteration of a call succeeds (finite initial space, finite operator) - failures are modelled from the second iteration on",
+                            "twice_is_enough_orthogonalisation (LinAlg/Orthogonalization.h, assumed): shape-preserving; its asserted precondition 0 <= left_cols_to_skip < cols is checked at the call site",
+                            "the counting lemma `all of the first n flags set <=> head(n).sum() == n` and the definitional facts of a count are mathematics (HEAD_COUNT)",
+                            "capacity mode of compute_with_guess / compute: arrays pre-allocated with an arbitrary capacity g_cap <= NMAX, every Eigen size that occurs is assumed <= g_cap (the instance g_cap = NMAX covers every run below the machine-integer cap)",
+                            "setters (set_max_search_space_size, set_correction_size, set_initial_search_space_size) can break the size invariant; they are outside the claim (the caller's responsibility)",
+                            "maxit >= 1 (with maxit <= 0 the loop does not run and status/flags of an earlier call are returned - outside the property's quantifier)",
+                            "forall-instantiation meta-rule: a postcondition proved for unconstrained Skolem indices is assumed at use-site indices (INSTANTIATE_RANGE, counted)"],
             "not_covered": ["||A x - theta x|| < tol against the user's matrix (numerical drift of the cached products)", "orthonormality of the returned vectors",
                             "finiteness of Eigen-expression arithmetic as a whole"],
-            "extraction": report, "explanation": "structural clauses of C15 only"}
+            "extraction": report, "explanation": "structural clauses of C15 only; pairing of (value, vector, residual) is carried by the contracts of compute_eigen_pairs (aligned) and sort (permuted together) - no other callee has the pair arrays in its frame"}
     return groups, meta
 
 
-MANIFEST = {}
+
+def replay(g, o, assigns, path):
+    from vlib import replay as RP
+    txt = (o.get("desc") or "") + " " + g.name
+    if "DPR" in txt:
+        mode = 2
+    elif g.name in ("jd.ctor",) or "class invariant" in txt:
+        mode = 1
+    else:
+        mode = 4
+    return RP.run_native(PROP, RP.src("C15_davidson_replay.cpp"), args=[mode], cxxflags="-O1 -std=c++11")
+
+
+MANIFEST = {
+    "category": "proof",
+    "text": "Proof of the contract-expressible part of C15 on the extracted Davidson skeleton (all n, nev, search-space / correction sizes, maxit >= 1, every rule, every history of calls): "
+            "info() == Successful => compute() returns nev, every one of the nev returned pairs is flagged and has a cached residual norm < tol, and the flags describe the returned pairs "
+            "(not an earlier set); flag j <=> ||r_j|| < tol element-wise; check_convergence is true exactly when all of the first nev pairs pass; the status after compute() is Successful, "
+            "NotConverging (only at the iteration limit) or NumericalIssue; RitzPairs::sort permutes value, Ritz vector, residual and small eigenvector TOGETHER, is a permutation, and orders by the "
+            "selection rule (argsort's contract from C18); the returned pairs are the sorted ones; the constructor establishes the size invariant (nev <= initial size, 1 <= correction <= initial, "
+            "initial + correction <= n, initial <= maximal <= n) for EVERY accepted argument triple, and under it every block / head / column / coefficient selector and every product in "
+            "compute(), compute_with_guess(), the SearchSpace and RitzPairs bookkeeping, the DPR correction and the accessors is inside its matrix (Eigen's own index assertions); the cached "
+            "operator products follow the basis through restart and extension column for column. NOT decided: the residual against the user's matrix (drift of the cached products), "
+            "orthonormality, finiteness of the Eigen arithmetic. One open finding is recorded (known_findings.json): the DPR correction divides by theta_k - a_ii, which is exactly zero for a "
+            "decoupled coordinate and turns the iteration into NaN.",
+    "note": "floating-point values of Eigen expressions are not modelled (shapes, provenance tags and index expressions are); Eigen::SelfAdjointEigenSolver and the orthogonalisation routine are "
+            "assumed contracts (shape-preserving; the first small eigenproblem of a call succeeds); argsort's contract is the one proved in C18; compute_with_guess is verified against callee contracts in "
+            "capacity mode (arrays pre-allocated, Eigen sizes as ghost fields) because dfcc forbids allocation inside a loop with a loop contract",
+    "technique": "CBMC dfcc frame + loop contracts with Skolem indices, provenance tags and harness-asserted postconditions on mechanically extracted C (cadical)",
+}
